@@ -64,7 +64,8 @@ PROPS = {
         rule=SYS_RULE + '; here 6% of the steps are a crash/restart (a new system.System and store object on the same sqlite file, volatile state dropped), so crashes fall before and after '
              'store commits, between the steps of every coroutine and in the middle of sweeps, also repeatedly; the dump monitors C01 (nothing disappears, completed rows final), C05 (no '
              'registration without its pending promise; a completion converted every registration), C08 (routed promise born with its task; completed promise has no live task) run on every '
-             'committed batch; crashdiff: the REAL `resonate serve` binary built from /repo, 4 concurrent HTTP clients (create / register / complete with idempotency keys), SIGKILL after a '
+             'committed batch; crashdiff: first a sparse-database phase (ONE acknowledged write — a lock, a schedule, a promise, a lock and a schedule — on a fresh file, a graceful SIGTERM with the default configuration, a restart on the same file: the write is still there), then '
+             'the REAL `resonate serve` binary built from /repo, 4 concurrent HTTP clients (create / register / complete with idempotency keys), SIGKILL after a '
              'random 20-620 ms of traffic (every second phase runs 2-3 s while another connection holds the sqlite write lock longer than the store transaction timeout, shortened to 300 ms, so batches time out half-way), restart on the same file, repeatedly, finally SIGTERM with the default configuration: every write acknowledged with 2xx before a kill is read back '
              'unchanged after every restart, the file left by every kill satisfies the all-or-nothing invariants, the server starts on it; non-trivial = acknowledged writes re-verified (counted)',
         assumptions=['a committed sqlite transaction is durable and atomic at the process level (sqlite, WAL/journal); power loss / fsync are outside the model and the sandbox',
@@ -259,7 +260,7 @@ PROPS = {
              '15% of the submissions fail before or after processing; the C12 monitor counts the responses of every request id on the implementation (never two, none for an id never submitted) and, at the end '
              'of every script, keeps the server running for 8*(outstanding+5) further rounds and requires exactly one response for every request submitted since the last crash; '
              'stackrun: the REAL system.Loop on its own goroutine with the REAL api / aio queues and the REAL store, router and sender worker goroutines, queue / batch / pool sizes 1..10, '
-             '1..8 concurrent client goroutines, shutdown requested after a random number of submissions, transports answering from their own goroutines; no model (timing is not reproducible): '
+             '1..8 concurrent client goroutines, shutdown requested after a random number of submissions, transports answering from their own goroutines (idle rounds: a quiet server whose last request arrives 150-350 ms after the loop\'s last wake-up with shutdown right behind it); no model (timing is not reproducible): '
              'every request must be answered exactly once, the kernel must not stall, shutdown must complete; each round in a child process with a watchdog; one round in six is a STORM: twelve clients submit 1500 cheap reads each in a tight loop '
              'into an API queue with room for all of them while shutdown is requested from a goroutine of its own at an arbitrary moment, so that requests are caught inside EnqueueSQE at that instant (counted as storm_rounds)',
         assumptions=['request ids are distinct (the front ends draw a fresh id per request)', 'no process crash between submission and response (responses of in-flight requests die with the process: C06)',
